@@ -47,7 +47,7 @@ m f10 etc/correctness/test-parse-golang/main.rs "s/Some(&b'e') | Some(&b'E') => 
 m f11 src/lib.rs 's/pub use self::parse::parse_float;/pub use self::parse::parse_float as pf;/'
 # ---- gen/SrcStackVec.v (compared with out/SrcStackVec.v: run `run.sh out` first)
 sv() {  # name  file  python-edit  expectation(changed|omitted)
-  local n="$1" f="$2" e="$3" want="$4" d="$W/$1"
+  local n="$1" f="$2" e="$3" want="$4" d="$W/$1" o="${5:-SrcStackVec}"
   mkdir -p "$d/repo/examples" "$d/repo/fuzz/fuzz_targets" "$d/repo/tests" "$d/repo/etc/correctness/test-parse-golang" "$d/out"
   cp -r /repo/src "$d/repo/src"; cp /repo/examples/simple.rs "$d/repo/examples/"; cp /repo/fuzz/fuzz_targets/parse.rs "$d/repo/fuzz/fuzz_targets/"
   cp /repo/tests/integration_tests.rs "$d/repo/tests/"; cp /repo/etc/correctness/test-parse-golang/main.rs "$d/repo/etc/correctness/test-parse-golang/"
@@ -62,9 +62,9 @@ PY
   timeout 120 "$BIN" "$d/repo/src" "$d/out" > "$d/log" 2>&1; rc=$?
   local om="$(grep '^rs2coq: omitted:' "$d/log" | sed 's/^rs2coq: omitted: //' | cut -c1-90)"
   local got=same
-  cmp -s "$d/out/SrcStackVec.v" "$HERE/out/SrcStackVec.v" || got=changed
+  cmp -s "$d/out/$o.v" "$HERE/out/$o.v" || got=changed
   if [ "$om" != none ] && [ -n "$om" ]; then got=omitted; fi
-  if [ $rc -eq 0 ] && [ "$got" = "$want" ]; then echo "[$n] SrcStackVec.v $got ($om)"; else echo "[$n] FAILED (exit $rc, $got, wanted $want; omitted: $om)"; fails=$((fails+1)); fi
+  if [ $rc -eq 0 ] && [ "$got" = "$want" ]; then echo "[$n] $o.v $got ($om)"; else echo "[$n] FAILED (exit $rc, $got, wanted $want; omitted: $om)"; fails=$((fails+1)); fi
 }
 sv s1 src/stackvec.rs 's = s.replace("        if self.len() < self.capacity() {", "        if self.len() <= self.capacity() {", 1)' changed
 sv s2 src/stackvec.rs 's = s.replace("ptr::write(self.as_mut_ptr().add(self.len()), value);", "ptr::write(self.as_mut_ptr().add(self.len() + 1), value);", 1)' changed
@@ -77,5 +77,14 @@ sv s8 src/stackvec.rs 's = s.replace("        debug_assert!(len <= 0xffff);", " 
 sv s9 src/stackvec.rs 's = s.replace("            for index in 0..count {", "            for index in 1..count {", 1)' changed
 sv s10 src/stackvec.rs 's = s.replace("            let ptr = self.data.as_ptr() as *const bigint::Limb;\n            slice::from_raw_parts(ptr, self.len())", "            let ptr = self.data.as_ptr() as *const bigint::Limb;\n            slice::from_raw_parts(ptr.add(1), self.len())", 1)' omitted
 sv s11 src/bigint.rs 's = s.replace("            let dst = x.as_mut_ptr().add(n);", "            let dst = x.as_mut_ptr().add(n - 1);", 1)' changed
+# ---- gen/SrcHeapVec.v (rule 31)
+sv h1 src/heapvec.rs 's = s.replace("self.data.resize(len, value);", "self.data.resize(len, 0);", 1)' changed SrcHeapVec
+sv h2 src/heapvec.rs 's = s.replace("data: Vec::with_capacity(bigint::BIGINT_LIMBS),", "data: Vec::new(),", 1)' omitted SrcHeapVec
+sv h3 src/heapvec.rs 's = s.replace("        self.data.push(value);\n", "", 1)' changed SrcHeapVec
+sv h4 src/heapvec.rs 's = s.replace("self.data.extend_from_slice(slc);", "self.data.extend_from_slice(&slc[1..]);", 1)' omitted SrcHeapVec
+sv h5 src/heapvec.rs 's = s.replace("        self.data.pop()", "        self.data.pop().map(|x| x + 1)", 1)' omitted SrcHeapVec
+sv h6 src/heapvec.rs 's = s.replace("        self.data.capacity()", "        self.data.len()", 1)' changed SrcHeapVec
+sv h7 src/heapvec.rs 's = s.replace("    data: Vec<bigint::Limb>,", "    data: Vec<u32>,", 1)' omitted SrcHeapVec
+sv h8 src/heapvec.rs 's = s.replace("        debug_assert!(len <= self.capacity());", "        debug_assert!(len < self.capacity());", 1)' changed SrcHeapVec
 if [ $fails -eq 0 ]; then echo "mutation_check: PASS"; else echo "mutation_check: $fails FAILURE(S)"; fi
 exit $fails
